@@ -447,8 +447,23 @@ def run(ctx):
                         break
             if sw is not None:
                 zero, true_t = A.bool_edges(cor, sw)
-                ok = bool(true_t) and not any(c in A.reach(cor, true_t) for c in cn) and not any(c in A.reach(cor, rf.err_blocks) for c in cn)
-                detail = "create_new is reached only on the edge where holds_database_files() answered false" if ok else "create_new is reachable although holds_database_files() answered true (or failed)"
+                # on the "holds files" edge create_new may be reached only through the "this is an interrupted first creation"
+                # answer (repair 34): everything else that holds files is refused
+                ic = [b for b, t in cor.calls() if A.cname(t) == "db::Database::is_interrupted_creation"]
+                gate = []
+                for icb in ic:
+                    for x in sorted(A.reach(cor, cor.succs(icb))):
+                        t_ = cor.term(x)
+                        if t_["k"] == "switch" and t_.get("dty") == "bool" and any(y.k == "call" and y.a[0] == "db::Database::is_interrupted_creation" for y in A.walk(ctx.og(cor).of_operand(t_["d"]))):
+                            tm2, neg2 = A.strip_not(ctx.og(cor).of_operand(t_["d"]))
+                            z2, t2 = A.bool_edges(cor, x)
+                            gate.append((x, list(t2 if neg2 else z2)))   # (switch, its "NOT interrupted" edge)
+                            break
+                not_interrupted = [e for _, es in gate for e in es]
+                reach_true = A.reach(cor, true_t, avoid=[g for g, _ in gate])
+                ok = bool(true_t) and not any(c in reach_true for c in cn) and not any(c in A.reach(cor, rf.err_blocks) for c in cn) \
+                    and not any(c in A.reach(cor, not_interrupted) for c in cn)
+                detail = "create_new is reached only where holds_database_files() answered false, or the folder is an interrupted first creation" if ok else "create_new is reachable although holds_database_files() answered true (or failed) and the folder is not an interrupted first creation"
         ctx.ob("R-C17.6", cor, "populated-folder-without-marker-is-not-initialised", ok,
                detail if ok else detail + ": a database folder whose version marker went missing is initialised as a NEW database on top of the existing files (new journal, new marker, the old keyspaces no longer listed)",
                cor.loc(cn[0]) if cn else "")
@@ -468,6 +483,65 @@ def run(ctx):
             ctx.ob("R-C17.6", cor, "held-lock-reported-before-the-markerless-folder-is-refused", okp,
                    "the lock is probed (and a held lock returned as the error) before InvalidVersion is answered" if okp else
                    "a marker-less folder that holds database files is refused with InvalidVersion without looking at the lock: a second opener racing a creation (lock held, marker not yet written) does not get the lock error the property promises")
+    iic = ctx.fn("db::Database::is_interrupted_creation", "R-C17.6")
+    if iic:
+        ogi = ctx.og(iic)
+        false_ret = [b for b, blk in enumerate(iic.blocks) if not blk["cleanup"] for st_ in blk["s"]
+                     if st_["rv"]["k"] == "agg" and st_["rv"].get("variant") == "Ok" and any((o.get("const") or {}).get("val") is False for o in st_["rv"]["ops"])]
+        # (a) a keyspaces folder with ANY entry is not an interrupted creation: a second read_dir whose first next() being Some answers false
+        rds = [b for b, t in iic.calls() if A.cname(t) == "std::fs::read_dir"]
+        oka = False
+        for cc, tt in iic.calls():
+            if not A.cname(tt).endswith(("Option::<T>::is_some", "Option::<T>::is_none")):
+                continue
+            recv = ogi.of_operand(tt["args"][0])
+            # the emptiness test reads the keyspaces folder itself: next() of a read_dir of the entry's own path
+            inner = any(x.k == "call" and x.a[0] == "std::fs::read_dir" and any(y.k == "call" and y.a[0] == "std::fs::DirEntry::path" for y in A.walk(x)) for x in A.walk(recv))
+            s2 = A.switch_after_call(iic, cc)
+            if not inner or s2 is None:
+                continue
+            z_, t_ = A.bool_edges(iic, s2)
+            has_entry = z_ if A.cname(tt).endswith("is_none") else t_
+            oka = oka or any(fr in A.reach(iic, list(has_entry), avoid=[b for b, t in iic.calls() if A.cname(t).endswith("Iterator>::next") and b != cc]) for fr in false_ret)
+        # (b) a journal that is not the first one: the comparison with the first journal's name decides
+        cs = _string_consts(F, iic)
+        okb = "jnl" in cs and any(c.endswith(".jnl") for c in cs) and bool(false_ret)
+        ctx.ob("R-C17.6", iic, "interrupted-creation-means-empty-keyspaces-folder-and-first-journal-only", bool(oka and okb and len(rds) >= 2),
+               "a non-empty keyspaces folder, or a journal other than the first, makes the folder a database (refused), not an interrupted creation" if (oka and okb) else
+               "is_interrupted_creation does not rule out %s: a real database whose marker went missing would be taken for an interrupted creation, and create_new would delete its first journal and start over on top of it" % (
+                   "a non-empty keyspaces folder" if not oka else "later journals"))
+    cnf6 = ctx.fn("db::Database::create_new", "R-C17.6")
+    if cnf6:
+        og6 = ctx.og(cnf6)
+        rm = [b for b, t in cnf6.calls() if A.cname(t) in ("std::fs::remove_file", "std::fs::remove_dir_all")]
+        icb = [b for b, t in cnf6.calls() if A.cname(t) == "db::Database::is_interrupted_creation"]
+        locks = R.call_blocks(cnf6, LOCK_FNS)
+        okg = True
+        detailg = "create_new removes nothing"
+        if rm:
+            okg = False
+            detailg = "create_new removes a file without asking whether the folder is an interrupted first creation"
+            for ib in icb:
+                rfi = A.result_flow(cnf6, ib)
+                for x in sorted(A.reach(cnf6, cnf6.succs(ib))):
+                    t_ = cnf6.term(x)
+                    if t_["k"] == "switch" and t_.get("dty") == "bool" and any(y.k == "call" and y.a[0] == "db::Database::is_interrupted_creation" for y in A.walk(og6.of_operand(t_["d"]))):
+                        tm_, neg_ = A.strip_not(og6.of_operand(t_["d"]))
+                        z_, tt_ = A.bool_edges(cnf6, x)
+                        no_edge = tt_ if neg_ else z_
+                        okg = all(A.dominates(cnf6, ib, r_) for r_ in rm) and not any(r_ in A.reach(cnf6, list(no_edge)) for r_ in rm) \
+                            and bool(locks) and all(A.dominates(cnf6, locks[0], r_) for r_ in rm)
+                        detailg = "the leftover journal is removed only under the lock and only where is_interrupted_creation() answered true" if okg else \
+                            "create_new can remove a journal file although the folder is NOT an interrupted first creation (or before the lock is held): a real database's first journal would be deleted"
+                        break
+        ctx.ob("R-C17.6", cnf6, "create-new-removes-only-an-interrupted-creations-journal", okg, detailg, cnf6.loc(rm[0]) if rm else "")
+        # a folder that already has a marker is refused before anything is created or removed
+        ex = [b for b, t in cnf6.calls() if A.cname(t) == "std::path::Path::try_exists" and any("version" in str(c).lower() for c in _string_consts_of_term(og6.of_operand(t["args"][0])))]
+        muts = [b for b, t in cnf6.calls() if A.cname(t) in ("std::fs::remove_file", "std::fs::File::create", "std::fs::rename", "journal::Journal::create_new") or (A.cname(t) == "std::fs::create_dir_all" and locks and A.dominates(cnf6, locks[0], b))]
+        okm = bool(ex) and all(any(A.dominates(cnf6, e, m_) for e in ex) for m_ in muts)
+        ctx.ob("R-C17.6", cnf6, "existing-marker-refused-before-anything-is-touched", okm,
+               "create_new looks for an existing version marker (under the lock) before it creates or removes anything" if okm else
+               "create_new creates / removes files without first refusing a folder that already has a version marker: called on an existing database it would start over on top of it")
     hdf = ctx.fn("db::Database::holds_database_files", "R-C17.6")
     if hdf:
         cs = _string_consts(F, hdf)
@@ -637,4 +711,15 @@ def _string_consts(F, fn):
                     v = _const_str(c)
                     if v:
                         out.add(v)
+    return out
+
+
+def _string_consts_of_term(term):
+    out = set()
+    for c in A.consts_in(term):
+        v = _const_str(c)
+        if v:
+            out.add(v)
+        elif isinstance(c, (list, tuple)) and len(c) == 2 and c[0] == "def":
+            out.add(str(c[1]))
     return out
